@@ -137,4 +137,131 @@ theorem split_join_split (buf : Str) (delim : Byte) :
   have := this.2 delim hm
   simp at this
 
+
+/-! ## trim -/
+
+/-- `trim(view)` = the view without its leading and without its trailing
+white space (`' ' \n \r \t`), for every buffer; all reads inside the view -/
+theorem trim_eq_strip (view : Str) : trim view = strip isWsTrim view := trim_eq_strip' view
+
+/-- "removes exactly the leading and trailing white space", declaratively:
+the view is `pre ++ trim view ++ post` with `pre`, `post` white space only,
+and a non-empty result neither starts nor ends with white space
+(this determines `pre`, the result and `post` uniquely) -/
+theorem trim_exact (view : Str) :
+    ∃ pre post, view = pre ++ trim view ++ post
+      ∧ (∀ c ∈ pre, isWsTrim c = true) ∧ (∀ c ∈ post, isWsTrim c = true)
+      ∧ (∀ c, (trim view).head? = some c → isWsTrim c = false)
+      ∧ (∀ c, (trim view).getLast? = some c → isWsTrim c = false) := by
+  rw [trim_eq_strip]
+  exact strip_exact isWsTrim view
+
+/-! ## igris_memmem -/
+
+/-- for a non-empty needle `igris_memmem` returns the offset of the first
+occurrence, or NULL when there is none … -/
+theorem memmem_eq_firstOcc (l s : Str) (hs : s ≠ []) : memmem l s = firstOcc s l :=
+  memmem_eq_firstOcc' l s hs
+
+/-- … declaratively: a returned offset is an occurrence and no smaller offset is -/
+theorem memmem_some (l s : Str) (i : Nat) (hs : s ≠ []) (h : memmem l s = some i) :
+    s <+: l.drop i ∧ (∀ j, j < i → ¬ s <+: l.drop j) ∧ i + s.length ≤ l.length := by
+  have h' := h
+  rw [memmem_eq_firstOcc l s hs] at h'
+  exact ⟨(firstOcc_some_spec s l i h').1, (firstOcc_some_spec s l i h').2, memmem_bound l s i hs h⟩
+
+/-- NULL is returned only when the needle occurs nowhere -/
+theorem memmem_none (l s : Str) (hs : s ≠ []) (h : memmem l s = none) : ∀ j, ¬ s <+: l.drop j := by
+  rw [memmem_eq_firstOcc l s hs] at h
+  exact firstOcc_none_spec s l hs h
+
+/-- the routine's own convention ("we need something to compare"): an empty
+needle is never found.  (`firstOcc [] l` would be `some 0`.) -/
+theorem memmem_empty_needle (l : Str) : memmem l [] = none := by simp [memmem]
+
+example : memmem [0x61#8, 0x62#8, 0x61#8, 0x62#8] [0x62#8] = some 1 := by decide
+
+/-! ## replace -/
+
+/-- `igris::replace(input, sub, rep)` = left-to-right non-overlapping
+substitution (an empty pattern replaces nothing), for all inputs -/
+theorem replace_eq_subst (input sub rep : Str) : replace input sub rep = some (subst sub rep input) := by
+  unfold replace subst
+  split
+  · rename_i h
+    have : sub = [] := List.eq_nil_of_length_eq_zero h
+    subst this; rfl
+  · rename_i h
+    have hs : sub ≠ [] := fun e => h (by simp [e])
+    rw [replaceLoop_eq sub rep hs _ input [] (by omega)]
+    cases sub with
+    | nil => exact absurd rfl hs
+    | cons a as => simp
+
+/-- the substitution spec itself: where the pattern does not occur nothing
+changes, at the first occurrence the pattern is replaced and the scan resumes
+*behind* it (non-overlapping, the replacement is not rescanned) -/
+theorem subst_unfold (sub rep s : Str) (hs : sub ≠ []) :
+    subst sub rep s =
+      match firstOcc sub s with
+      | none => s
+      | some i => s.take i ++ rep ++ subst sub rep (s.drop (i + sub.length)) := by
+  have he : sub.isEmpty = false := by cases sub with | nil => exact absurd rfl hs | cons a as => rfl
+  unfold subst
+  simp only [he, Bool.false_eq_true, ↓reduceIte]
+  cases ho : firstOcc sub s with
+  | none => exact substGo_none sub rep s ho
+  | some i => exact substGo_some sub rep s i hs ho
+
+/-! ## replace_substrings -/
+
+/-- `replace_substrings(buffer, maxsize, …)`: the bytes written are, from
+`buffer[0]` on, the substitution result cut to `maxsize - 1` characters and a
+NUL; nothing for `maxsize = 0` -/
+theorem replaceSubstrings_eq (maxsize : Nat) (input sub rep : Str) :
+    replaceSubstrings maxsize input sub rep =
+      some (if maxsize = 0 then [] else (subst sub rep input).take (maxsize - 1) ++ [NUL]) := by
+  unfold replaceSubstrings subst
+  split
+  · rfl
+  · split
+    · rename_i h
+      have : sub = [] := List.eq_nil_of_length_eq_zero h
+      subst this
+      simp only [List.isEmpty_nil, ↓reduceIte]
+      congr 2
+      rw [List.take_eq_take_iff]
+      omega
+    · rename_i h
+      have hs : sub ≠ [] := fun e => h (by simp [e])
+      have he : sub.isEmpty = false := by cases sub with | nil => exact absurd rfl hs | cons a as => rfl
+      have := rsLoop_eq sub rep hs (maxsize - 1) (input.length + 1) input [] (by omega)
+      simp only [RsRep, List.take_nil, List.length_nil, Nat.sub_zero, List.nil_append] at this
+      simp only [this, he, Bool.false_eq_true, ↓reduceIte]
+
+/-- hence no byte at an offset `≥ maxsize` is written -/
+theorem replaceSubstrings_in_bounds (maxsize : Nat) (input sub rep w : Str)
+    (h : replaceSubstrings maxsize input sub rep = some w) : w.length ≤ maxsize := by
+  rw [replaceSubstrings_eq] at h
+  cases h
+  split
+  · simp
+  · simp only [List.length_append, List.length_take, List.length_singleton]; omega
+
+/-! ## split_cmdargs -/
+
+/-- `split_cmdargs(buf)` = the quote-aware tokenisation `cmdargsSpec`, for
+every buffer; no access outside the buffer -/
+theorem splitCmdargs_eq (buf : Str) : splitCmdargs buf = some (cmdargsSpec buf) := by
+  unfold splitCmdargs cmdargsSpec
+  split
+  · rename_i h
+    have : buf = [] := List.eq_nil_of_length_eq_zero h
+    subst this; rfl
+  · rw [cmdargsLoop_eq _ buf [] (by omega)]; simp
+
+/-- without quote characters `split_cmdargs` is `split(buf, ' ')` -/
+theorem cmdargsSpec_no_quotes (s : Str) (h : DQ ∉ s ∧ SQ ∉ s) :
+    cmdargsSpec s = runs (· == SP) s := cmdGo_no_quotes s h
+
 end Igris.C19
